@@ -5,6 +5,18 @@ sys.path.insert(0, ROOT)
 from lib import props
 
 NOTES = {
+    'C02': ('an unlimited read of the base table is exactly the selection of the matching items in key order (reverse for backward), for every interpreter, in every TInv state',
+            'proved for the base table; reads through secondary indexes rest on IInv (C03) plus the correspondence check; N/B sort keys are ordered as text (known finding C12-2)'),
+    'C04': ('resume position decided by order (not by the presence of the boundary item), page size <= Limit, for every interpreter and table state',
+            'PARTIAL: the full completeness theorem (concatenated pages = unpaginated read) is not proved yet; it is checked by the correspondence on the page stream (every boundary, deletes between pages)'),
+    'C06': ('precedence chain from the generated tables; missing-attribute, type-sensitivity, ordering, NULL-exists and connective laws for all values',
+            'a DynamoDB reference semantics is not available offline: the laws are those the property text states; BETWEEN/IN on paths and size() on sets are known findings'),
+    'C07': ('frame theorem: attributes no action targets keep their value (through the evaluator representation) for every update expression, item and bindings; removed means gone; SET stores a copy',
+            'right-hand sides see earlier actions of the same expression (known finding C07-1); ADD on nested paths ignored (C07-2)'),
+    'C09': ('strictness (accepted => fully consumed), lone identifier rejected, keywords case-sensitive, Match yields verdict or error only, rejections surface as panic/error with unchanged table',
+            'PARTIAL: termination of the parser for all inputs is by construction of the model (fuel) and checked by the malformed stream; a closed-form fuel bound is not proved'),
+    'C12': ('exactness of canonical integers < 2000 (exhaustive, in-kernel), notation normalisation; refutation witnesses for 38-digit precision and decimal arithmetic',
+            'numbers are float64 in the implementation: the property is largely refuted on the unchanged tree (known findings C12-1, C12-2); float64 parse/format are modelled on SpecFloat and validated against strconv on every run'),
     'C01': ('refinement of single-item operations to a key->item map: TInv for all histories, effect/frame lemmas for every interpreter',
             'envelope: key strings of distinct keys are distinct (hash-only schemas, or hash values without "."; see C13 known finding on the "." separator)'),
     'C03': ('IInv (refs = exactly the items with the index key attributes; sortedKeys = sorted multiset of index keys) for every reachable state, index creation with backfill included',
